@@ -143,6 +143,22 @@ def judge(c, ctxs, results):
                     raise V.ToolError("detour node's pool not emptied: %s" % o)
                 else:
                     stats["detours_back"] += 1
+            elif "staged" in line:
+                # probes whose id the chain proposed before they reached the pool: stage gap (earliest commit tip + w_close),
+                # stage proposed (next block)
+                for sp, r in zip(ctx.get("staged", []), line["staged"]["results"]):
+                    if r is None:
+                        raise V.ToolError("a staged probe was not judged")
+                    stats["staged_%s_%s" % (sp["stage"], sp["pv"])] += 1
+                    payload = {"ctx": short_ctx(ctx), "staged": sp, "observed": r, "full_ctx": ctx}
+                    for j, ok, err in (("pool-test", r["test_accept"], r["test_err"]), ("pool-submit", r["submit"], r["submit_err"])):
+                        c.case({"cfg": ctx["cfg"], "ts": ctx["ts"], "sched": ctx["sched"], "tx": sp["tx"], "stage": sp["stage"], "judge": j}, True)
+                        if sp["pv"] == "accept" and not ok:
+                            c.violation("%s/valid-rejected/stage-%s/%s/%s" % (j, sp["stage"], sp["lab"], errclass(err)),
+                                        "spec: valid for the commit position of a transaction at stage %s; refused: %s" % (sp["stage"], err), payload)
+                        elif sp["pv"] == "reject" and ok:
+                            c.violation("%s/invalid-accepted/stage-%s/%s" % (j, sp["stage"], "+".join(sp["prules"])),
+                                        "spec: breaks %s at the commit position of stage %s; accepted" % (sp["prules"], sp["stage"]), payload)
             elif "probe" in line:
                 o = line["probe"]
                 p = ctx["probes"][o["m"]][o["i"]]
@@ -231,6 +247,9 @@ def run(tier):
         missing = [REQUIRED[n][0] for n in range(len(REQUIRED)) if covered[n] == 0]
         if missing:
             raise V.ToolError("vacuous run: rule boundaries never exercised: %s" % missing)
+        for k in ("staged_gap_accept", "staged_gap_reject", "staged_proposed_accept", "staged_proposed_reject"):
+            if stats[k] == 0:
+                raise V.ToolError("vacuous run: no probe judged at the pool stage %s" % k)
         if stats["detours_back"] < len(ctxs) or stats["context_only_pairs"] < 100:
             raise V.ToolError("vacuous run: ContextOnly not exercised: %s" % dict(stats))
     return c.finish()
